@@ -463,12 +463,25 @@ impl World {
     fn snap(&self) {
         let st = self.st.borrow();
         if let Some(d) = &st.dispatch {
+            // bit i set: caller i is running (not resolved/abandoned) / has been woken
+            let mut running = 0i128;
+            let mut woken = 0i128;
+            for (i, c) in st.callers.iter().enumerate() {
+                if c.status == CS::Running && c.fut.is_some() {
+                    running |= 1 << i;
+                }
+                if c.flag.is_set() {
+                    woken |= 1 << i;
+                }
+            }
             self.log.push(Rec::N(
                 "snap",
                 vec![
                     d.verif_in_flight_len() as i128,
                     d.verif_timers_len() as i128,
                     self.log.now_ns(),
+                    running,
+                    woken,
                 ],
             ));
         }
